@@ -78,7 +78,10 @@ def work(job):
                 # the document ends inside a metadata value / heading / paragraph, without a final line break, on a byte-special character
                 tail = lead_payload(rng, 'eof')
                 text = rng.choice(['Title: x\nAuthor: J\u00fcrgen zz%s', 'Title: zz%s', 'k: v\nLast Key: zz\u20ac%s', '# Head zz%s', 'para\n\nlast line zz%s', '* item zz%s', '[^n]: note zz%s',
-                                   '| a | zz%s', 'term\n: def zz%s', '> quote zz%s', '```\ncode zz%s', 'Title: t\n\n[link]: http://example.com/zz%s']) % tail
+                                   '| a | zz%s', 'term\n: def zz%s', '> quote zz%s', '```\ncode zz%s', 'Title: t\n\n[link]: http://example.com/zz%s',
+                                   # raw-source fences left open at the end of input, indented inside containers (the writers copy a byte range of the source)
+                                   '* item\n\n    ```{=html}\n    <b>zz%s', '* item\n\n    ```{=latex}\n    \\x zz%s', '> ```{=*}\n> zz%s', '1. i\n\n    ```{=odt}\n    zz%s',
+                                   '* a\n\n    * b\n\n        ```{=*}\n        zz%s', '```{=*}\nzz%s']) % tail
                 sl = []
                 r.stats['eof_documents'] += 1
             elif rng.random() < 0.05:
